@@ -110,6 +110,27 @@ const MARKERS: &[MarkerKind] = &[
     },
 ];
 
+/// Legal expressions whose compiled program is large (1-4 MB, 8-25 ms to build): bounded repetitions of unicode
+/// classes.  Enabled in about one (short) run in 300, they are the patterns on which the lazy and the warmed-up regex of the
+/// library must still be the same regex.
+const HEAVY_MARKERS: &[MarkerKind] = &[
+    MarkerKind {
+        regex: "\\w{1,64}",
+        samples: &["hello_world", "é9"],
+        misses: &["", "a-b"],
+    },
+    MarkerKind {
+        regex: "(?:\\w|\\-){1,32}",
+        samples: &["a-b", "x_1"],
+        misses: &["", "a b"],
+    },
+    MarkerKind {
+        regex: "\\pL{1,30}",
+        samples: &["abc", "é"],
+        misses: &["", "a1"],
+    },
+];
+
 pub fn compile_pattern(p: &PatSpec, ignore_case: bool) -> String {
     if p.markers.is_empty() {
         return regex::escape(&p.template);
@@ -121,7 +142,7 @@ pub fn compile_pattern(p: &PatSpec, ignore_case: bool) -> String {
     }
 }
 
-fn gen_pattern(rng: &mut Rng, pool: &mut Vec<(PatSpec, Vec<String>, Vec<String>)>) {
+fn gen_pattern(rng: &mut Rng, pool: &mut Vec<(PatSpec, Vec<String>, Vec<String>)>, heavy: bool) {
     // template = literal (marker literal)*, sharing prefixes with earlier templates half of the time
     let mut template = String::new();
     let mut markers: Vec<(String, String)> = Vec::new();
@@ -157,7 +178,7 @@ fn gen_pattern(rng: &mut Rng, pool: &mut Vec<(PatSpec, Vec<String>, Vec<String>)
             m.push_str(&lit);
         }
         if rng.chance(3, 4) && markers.len() < 3 {
-            let mk = &MARKERS[rng.below(MARKERS.len())];
+            let mk = if heavy && rng.chance(3, 4) { &HEAVY_MARKERS[rng.below(HEAVY_MARKERS.len())] } else { &MARKERS[rng.below(MARKERS.len())] };
             let name = format!("m{}{}", k, ["", "x", "xy"][rng.below(3)]);
             if markers.iter().any(|(n, _)| n.starts_with(&name) || name.starts_with(n.as_str())) {
                 continue;
@@ -227,8 +248,12 @@ impl World for W3 {
             }
         };
         let mut pool = Vec::new();
+        // about one short run in 300 may use expressions with a large compiled program (each lookup of an uncached tree
+        // rebuilds them: such a run costs seconds)
+        let heavy = rng.chance(1, 300);
+        let npat = if heavy { npat.min(5) } else { npat };
         for _ in 0..npat {
-            gen_pattern(rng, &mut pool);
+            gen_pattern(rng, &mut pool, heavy);
         }
         let mut probes: Vec<String> = Vec::new();
         for (_, hits, misses) in &pool {
@@ -256,9 +281,9 @@ impl World for W3 {
         probes.sort();
         probes.dedup();
         rng.shuffle(&mut probes);
-        probes.truncate(if tier == Tier::Quick { 14 } else { 24 });
+        probes.truncate(if heavy { 10 } else if tier == Tier::Quick { 14 } else { 24 });
 
-        let nops = rng.range(npat, (npat * 3).min(60));
+        let nops = if heavy { rng.range(2, 8) } else { rng.range(npat, (npat * 3).min(60)) };
         let mut ops = Vec::new();
         let mut live: Vec<(usize, String)> = Vec::new();
         let mut next_id = 0usize;
